@@ -1116,7 +1116,12 @@ def check_kernel_mode(sb, kernel, view, key, mod, consts, mode, opts, res, known
         for lab, claim in (kernel.claims(env, None) if kernel.claims else []):
             obls.append((lab, [pre_main, ex.Not(claim)], None, None, "claim"))
 
+    n_unknown = 0
     for lab, facts, p, q, okind in obls:
+        if kernel.guided_seeds is not None and n_unknown >= opts.get("max_unknown_guided", 12):
+            res["obligations"].append({"label": lab, "verdict": "unknown", "solver": "-", "t": 0.0,
+                                       "note": "not attempted: earlier obligations of this trace-guided kernel exhausted the solver cap"})
+            continue
         if time.time() - t_kernel > budget:
             res["obligations"].append({"label": lab, "verdict": "unknown", "solver": "-", "t": 0.0, "note": "kernel time budget"})
             continue
@@ -1159,6 +1164,8 @@ def check_kernel_mode(sb, kernel, view, key, mod, consts, mode, opts, res, known
             if allu:
                 v, sv = "unsat", "z3+split"
         rec = {"label": lab, "verdict": v, "solver": sv, "t": round(dt, 3)}
+        if v == "unknown":
+            n_unknown += 1
         if v == "sat" and model is None:
             # cvc5 said sat: get a model from z3 with a longer budget
             pf2 = Portfolio(timeout_s=4 * pf.timeout_s)
